@@ -47,7 +47,7 @@ def check(ctx):
         if bad == 0:
             ctx.holds('C19.S1', 'membership filter agrees with the oracle on all %d (is-None x ordering) cases' % n, fn.site())
         ctx.sample({'rule': 'C19.S1', 'filter': [fmt(c) for c in ifs], 'cases': n})
-    pure(ctx, 'C19.S1', qn, ps)
+    ctx.sub(pure, 'C19.S1', qn, ps)
     ws = writers_of_attr(ctx.M, 'asset_dates')
     ctx.require(all(w.fn.qn == 'DynamicUniverse.__init__' for w in ws) and ws, 'C19.S1', 'the entry-date map is set only by the constructor', ws[0].where if ws else None,
                 [w.fn.qn for w in ws], key='C19.S1|asset_dates')
@@ -55,7 +55,7 @@ def check(ctx):
     ps = summarise(ctx, qn, policy=default_policy)
     ok = len(ps) == 1 and ps[0].outcome == 'return' and ps[0].value in (A('self', 'asset_list'), ('call', ('ext', 'LIST'), (A('self', 'asset_list'),), ()))
     ctx.require(ok, 'C19.S1', 'a static universe yields exactly its configured list', ctx.fn(qn).site(), [fmt(p.value) if p.value else p.outcome for p in ps], key='C19.S1|static')
-    pure(ctx, 'C19.S1', qn, ps)
+    ctx.sub(pure, 'C19.S1', qn, ps)
     ws = writers_of_attr(ctx.M, 'asset_list')
     ctx.require(all(w.fn.qn == 'StaticUniverse.__init__' for w in ws) and ws, 'C19.S1', 'the static list is set only by the constructor (and never mutated in the package)',
                 ws[0].where if ws else None, [w.fn.qn + ':' + w.how for w in ws], key='C19.S1|asset_list')
@@ -69,20 +69,20 @@ def check(ctx):
         ok = v[0] == 'comp' and v[1] == 'dict' and len(v[3]) == 1 and not v[3][0][2] and v[2] == ('tuple', (v[3][0][0][0], A('self', 'signal'))) and \
             v[3][0][1][0] == 'call' and v[3][0][1][1][0] == 'fn' and 'get_assets' in v[3][0][1][1][1] and v[3][0][1][2] == (A('self', 'universe'), V('dt'))
         ctx.require(ok, 'C19.S2', 'weights are generated for exactly universe.get_assets(dt), each the configured signal', fn.site(), fmt(v)[:200], key='C19.S2|weights')
-    pure(ctx, 'C19.S2', qn, ps)
+    ctx.sub(pure, 'C19.S2', qn, ps)
     for fld in ('signal', 'universe'):
         ws = writers_of_attr(ctx.M, fld, owner='SingleSignalAlphaModel')
         ws = [w for w in ws if w.fn.cls is not None and w.fn.cls.name == 'SingleSignalAlphaModel']
         ctx.require(all(w.fn.name == '__init__' for w in ws), 'C19.S2', 'SingleSignalAlphaModel.%s is set only by the constructor' % fld, ws[0].where if ws else None,
                     key='C19.S2|field|%s' % fld)
-    c09.s1_asset_set(ctx, 'C19.S2')
+    ctx.sub(c09.s1_asset_set, 'C19.S2')
     # ---- S3 optimisers
     qn = 'FixedWeightPortfolioOptimiser.__call__'
     ps = summarise(ctx, qn, policy=default_policy)
     ok = len(ps) == 1 and ps[0].outcome == 'return' and ps[0].value == V('initial_weights')
     ctx.require(ok, 'C19.S3', 'the fixed-weight optimiser returns its input weights unchanged', ctx.fn(qn).site(), [fmt(p.value)[:100] if p.value else p.outcome for p in ps],
                 key='C19.S3|fixed')
-    pure(ctx, 'C19.S3', qn, ps)
+    ctx.sub(pure, 'C19.S3', qn, ps)
     qn = 'EqualWeightPortfolioOptimiser.__call__'
     fn = ctx.fn(qn)
     ps = summarise(ctx, qn, policy=default_policy)
@@ -98,4 +98,4 @@ def check(ctx):
             alts.append(T.t_div(A('self', 'scale'), ('call', ('ext', 'FLOAT'), (cnt,), ())))
             alts.append(T.t_div(A('self', 'scale'), cnt))
         ctx.require(any(T.teq(w, a) for a in alts), 'C19.S3', 'each weight = scale / number of assets given', fn.site(), fmt(w), key='C19.S3|equal-weight')
-    pure(ctx, 'C19.S3', qn, ps)
+    ctx.sub(pure, 'C19.S3', qn, ps)
